@@ -83,6 +83,11 @@ def serial_m(m, out=None):
     return out
 
 
+def _map_order(x):
+    sib = list(x.parent.pos_map.get(x.pos, [])) if getattr(x, 'parent', None) is not None and hasattr(x.parent, 'pos_map') else []
+    return (x.pos, sib.index(x) if x in sib else len(sib))
+
+
 def loop_shape(node):
     """the loops of a tree (ids and nesting, with the number of live segments each holds), empty ones included"""
     kids = [c for c in node.children if c.type is not None]
@@ -449,7 +454,8 @@ class Sut(object):
                 raise Violation('%s-accepts-foreign-segment' % k, txt)
             idx = 0
             for i, c in enumerate(mnode.children):
-                if c.x.pos <= xn.pos:
+                # map order: position first, then - among siblings of one position - the order in which the map lists them
+                if _map_order(c.x) <= _map_order(xn):
                     idx = i + 1
             sid, elems = x12ref.snapshot(sd)
             if k == 'add_segment':
@@ -496,7 +502,7 @@ class Sut(object):
                 raise Violation('add_node-accepts-foreign-node', '%s under %s' % (msrc.id, mnode.id))
             idx = 0
             for i2, c in enumerate(mnode.children):
-                if c.x.pos <= msrc.x.pos:
+                if _map_order(c.x) <= _map_order(msrc.x):
                     idx = i2 + 1
             mnode.children.insert(idx, mcopy(msrc, mnode))
             self.flags.add('edit')
